@@ -243,3 +243,77 @@ func HelperPairGood(x int) int {
 	releaseAll(h)
 	return 2
 }
+
+// ---- helper summaries, round 2 --------------------------------------------
+// a predicate helper returning an || chain: its false result implies every atom false
+func busy(x int) bool   { return x == 3 }
+func broken(x int) bool { return x == 4 }
+func anyBad(x int) bool { return busy(x) || broken(x) || x > 100 }
+func someBad(x int) bool { return busy(x) || x > 100 } // forgets broken(x)
+func OrChainGood(x int) {
+	if anyBad(x) {
+		return
+	}
+	sink(x)
+}
+func OrChainBad(x int) {
+	if someBad(x) {
+		return
+	}
+	sink(x)
+}
+
+// a guard spelled on the caller's value, evaluated inside a helper on its parameter
+func checkedInHelper(v int) error {
+	if err := verify(v); err != nil {
+		return err
+	}
+	return nil
+}
+func uncheckedInHelper(v int) error {
+	if err := verify(v + 1); err != nil { // verifies something else
+		return err
+	}
+	return nil
+}
+func ParamGuardGood() int {
+	y := produce()
+	if err := checkedInHelper(y); err != nil {
+		return 0
+	}
+	sink(y)
+	return 1
+}
+func ParamGuardBad() int {
+	y := produce()
+	if err := uncheckedInHelper(y); err != nil {
+		return 0
+	}
+	sink(y)
+	return 1
+}
+
+// origins through a value-computing helper
+func pick(a, b int) int {
+	if a > b {
+		return a
+	}
+	return produce()
+}
+func pickOther(a int) int {
+	if a > 0 {
+		return a
+	}
+	return other()
+}
+func OriginHelperGood() { sink(pick(produce(), produce())) }
+func OriginHelperBad()  { sink(pickOther(produce())) }
+
+// who-may with the construct extracted into a helper of the allowed caller
+func secret2()          {}
+func doSecret2()        { secret2() }
+func AllowedCaller2()   { doSecret2() }
+func secret3()          {}
+func doSecret3()        { secret3() }
+func AllowedCaller3()   { doSecret3() }
+func IntruderCaller3()  { doSecret3() }
